@@ -1719,3 +1719,129 @@ Proof. intros m t H. unfold is_late in H. destruct (get_tid t (m14_late m)) as [
 Lemma late_bool : forall m t, match get_tid t (m14_late m) with Some b => b | None => false end = true -> is_late m t.
 Proof. intros m t H. unfold is_late. destruct (get_tid t (m14_late m)) as [[|]|]; try discriminate H. reflexivity. Qed.
 
+Lemma f_ret : forall p st st2 m t c v,
+  ERel ENone st m -> FRel p st m -> (t < nthr st)%nat ->
+  tcur (thr st t) = Some c -> tcont (thr st t) = [] -> get_tid t (b_cur (m14_b m)) = Some c ->
+  ((p = FNone /\ v = tret (thr st t)) \/ (p = pendF t c (Some v) /\ imm_ok c v /\ (wcmd c -> ~ wkr st t))) ->
+  nthr st2 = nthr st -> pps st2 = pps st -> (forall u, u <> t -> thr st2 u = thr st u) ->
+  tcont (thr st2 t) = [] -> tpipe (thr st2 t) = tpipe (thr st t) -> tcur (thr st2 t) = None ->
+  FRel FNone st2 (m14r_step m (t, ERet v)) /\ m14_bad (m14_step m (t, ERet v)) = m14_bad m.
+Proof.
+  intros p st st2 m t c v E R Ht Hcu Hc Hg Hp Hn Epp Ho Hc2 Htp2 Hcu2.
+  set (m' := m14r_step m (t, ERet v)).
+  assert (Tp : forall u, tpipe (thr st2 u) = tpipe (thr st u)) by (intro u; destruct (Nat.eq_dec u t) as [->|Y]; [exact Htp2|rewrite Ho; auto]).
+  assert (Wk : forall u, wkr st2 u <-> wkr st u) by (intro u; unfold wkr; rewrite Hn, Tp; tauto).
+  assert (Co : forall u, tcont (thr st2 u) = tcont (thr st u)) by (intro u; destruct (Nat.eq_dec u t) as [->|Y]; [rewrite Hc, Hc2; reflexivity|rewrite Ho; auto]).
+  assert (Mc : mcont st2 = mcont st) by (unfold mcont; apply Co).
+  assert (Pd : (p = FNone) \/ (exists q x, c = CPSend q x /\ p = FSendBad t q x /\ v = RBad) \/ (exists q, c = CPDrop q /\ p = FDropBad t q /\ v = RBad)).
+  { destruct Hp as [[-> _]|[-> [Io _]]]; [left; reflexivity|]. unfold pendF. destruct c; try (left; reflexivity); cbn in Io; subst v; right; [left|right]; eauto. }
+  assert (Lrm : forall u, get_tid u (rm_tid t (m14_late m)) = if Nat.eqb u t then None else get_tid u (m14_late m)).
+  { intro u. destruct (Nat.eqb_spec u t) as [->|Y]; [apply get_tid_rm_same; apply (f_late_nd _ _ _ R)|apply get_tid_rm_other; exact Y]. }
+  pose proof (owner_of st m t E Ht) as Own.
+  assert (Ow : forall q, get_tid t (m14_owner m) = Some q -> wkr st t /\ tpipe (thr st t) = q).
+  { intros q Y. rewrite Own in Y. destruct (Z.leb_spec 0 (tpipe (thr st t))); [inversion Y; split; [split; auto|reflexivity]|discriminate Y]. }
+  (* a worker command of a worker returns the stored value *)
+  assert (Vw : wkr st t -> wcmd c -> p = FNone /\ v = tret (thr st t)).
+  { intros W Wc. destruct Hp as [[A B]|[_ [_ Z0]]]; [auto|exfalso; exact (Z0 Wc W)]. }
+  assert (Late_w : is_late m t \/ In t (map fst (m14_late m)) -> wkr st t).
+  { intros [L|L]; [|apply (f_late_in _ _ _ R t L)]. apply (f_late_in _ _ _ R t).
+    destruct (in_dec Nat.eq_dec t (map fst (m14_late m))) as [Y|Y]; [exact Y|]. apply get_tid_none in Y. unfold is_late in L. rewrite Y in L. discriminate L. }
+  assert (Abs : get_tid t (m14_owner m) = None -> rm_tid t (m14_late m) = m14_late m).
+  { intro Eo. apply rm_tid_absent. destruct (get_tid t (m14_late m)) eqn:G; [|reflexivity]. exfalso.
+    assert (Hin : In t (map fst (m14_late m))) by (destruct (in_dec Nat.eq_dec t (map fst (m14_late m))) as [Y|Y]; [exact Y|apply get_tid_none in Y; rewrite Y in G; discriminate G]).
+    destruct (Late_w (or_intror Hin)) as [_ W2]. rewrite Own in Eo. destruct (Z.leb_spec 0 (tpipe (thr st t))); [discriminate Eo|lia]. }
+  assert (A1 : m14_late m' = rm_tid t (m14_late m)).
+  { unfold m', m14r_step, m14_step. cbn. rewrite Hg. destruct c; try reflexivity; destruct v; try reflexivity;
+      destruct (get_tid t (m14_owner m)) eqn:Eo; try reflexivity; cbn; symmetry; apply Abs; reflexivity. }
+  assert (A2 : m14_psend m' = dps p m).
+  { unfold m', m14r_step, m14_step. cbn. rewrite Hg.
+    destruct Pd as [->|[[q [x [-> [-> ->]]]]|[q [-> [-> ->]]]]]; cbn [dps]; try reflexivity.
+    destruct c as [w|w|c0 x0|c0|w|n| | | | | |c0|c0|p0|p0 x0|p0| |x| | ]; try (destruct v; try reflexivity; destruct (get_tid t (m14_owner m)); reflexivity).
+    destruct Hp as [[_ Y]|[Y _]]; [|discriminate Y]. rewrite Y, (f_sendret _ _ _ R t p0 x0 Hcu). reflexivity. }
+  assert (A3 : (exists q, c = CPDrop q /\ v = RUnit /\ p = FNone /\ m14_dropped m' = q :: m14_dropped m) \/ m14_dropped m' = m14_dropped m).
+  { unfold m', m14r_step, m14_step. cbn. rewrite Hg. destruct c as [w|w|c0 x0|c0|w|n| | | | | |c0|c0|p0|p0 x0|p0| |x| | ]; try (right; destruct v; try reflexivity; destruct (get_tid t (m14_owner m)); reflexivity).
+    destruct v; try (right; reflexivity). left. exists p0. repeat split; try reflexivity.
+    destruct Pd as [Y|[[q [x [Y _]]]|[q [_ [_ Y]]]]]; [exact Y|discriminate Y|discriminate Y]. }
+  assert (A4 : (exists x q, c = CRecv /\ v = RVal x /\ get_tid t (m14_owner m) = Some q /\ m14_recvd m' = m14_recvd m ++ [(q, x)]) \/
+               (m14_recvd m' = m14_recvd m /\ ~ (exists x q, c = CRecv /\ v = RVal x /\ get_tid t (m14_owner m) = Some q))).
+  { unfold m', m14r_step, m14_step. cbn. rewrite Hg. destruct c; try (right; split; [destruct v; try reflexivity; destruct (get_tid t (m14_owner m)); reflexivity|intros [x [q [Y _]]]; discriminate Y]).
+    destruct v as [| | |bb|z|]; try (right; split; [reflexivity|intros [x [q [_ [Y _]]]]; discriminate Y]).
+    destruct (get_tid t (m14_owner m)) as [q|] eqn:Eo; [left; exists z, q; auto|right; split; [reflexivity|intros [x [q [_ [_ Y]]]]; discriminate Y]]. }
+  assert (Rv : forall x q, c = CRecv -> v = RVal x -> get_tid t (m14_owner m) = Some q -> p = FNone /\ tret (thr st t) = RVal x /\ wkr st t /\ tpipe (thr st t) = q).
+  { intros x q Ec Ev Eo. destruct (Ow q Eo) as [W Eq]. subst c. destruct (Vw W Logic.I) as [Y1 Y2]. rewrite <- Y2, Ev. auto. }
+  split.
+  - constructor.
+    + intros u q x Y. discriminate Y.
+    + intros u q Y. discriminate Y.
+    + intros q. rewrite Epp, Mc. intro Hq. cbn [dps]. rewrite A2. destruct (f_noex _ _ _ R q Hq) as [E1 [E2 [E3 [E4 [E5 [E6 E7]]]]]].
+      split; [exact E1|]. split; [|split; [exact E3|split; [exact E4|split; [|split; [exact E6|exact E7]]]]].
+      * destruct A4 as [[x [q0 [Ec [Ev [Eo Er]]]]]|[Er _]]; rewrite Er; [|exact E2]. destruct (Rv x q0 Ec Ev Eo) as [_ [_ [W Eq]]].
+        rewrite on_pipe_last, E2. destruct (Z.eqb_spec q0 q) as [->|]; [|reflexivity]. rewrite <- Eq, (e_wex _ _ _ E t W) in Hq. discriminate Hq.
+      * destruct A3 as [[q0 [Ec [Ev [Ep Ed]]]]|Ed]; rewrite Ed; [|exact E5]. subst c p.
+        destruct (f_dropcmd _ _ _ R t q0 Hcu ltac:(discriminate)) as [[m0 Y]|Y]; [rewrite Hc in Y; destruct Y|].
+        rewrite memZ_cons_other; [exact E5|]. intro Y0. subst q0. rewrite E4 in Y. discriminate Y.
+    + intros q. rewrite Epp. destruct A3 as [[q0 [Ec [Ev [Ep Ed]]]]|Ed]; rewrite Ed; [|apply (f_drop _ _ _ R)]. subst c p.
+      intro Y. unfold memZ in Y. cbn in Y. apply orb_true_iff in Y. destruct Y as [Y|Y]; [|apply (f_drop _ _ _ R q Y)].
+      apply Z.eqb_eq in Y. subst q0. destruct (f_dropcmd _ _ _ R t q Hcu ltac:(discriminate)) as [[m0 Y]|Y]; [rewrite Hc in Y; destruct Y|exact Y].
+    + intros u W L. apply Wk in W. unfold is_late in L. rewrite A1, Lrm in L. destruct (Nat.eq_dec u t) as [Y|Hu]; [rewrite Y, Nat.eqb_refl in L; discriminate L|].
+      destruct (Nat.eqb_spec u t) as [Y|_]; [contradiction|]. rewrite Epp, Tp. apply (f_late _ _ _ R u W L).
+    + intros u c0 W L Hq. apply Wk in W. unfold is_late in L. rewrite A1, Lrm in L. destruct (Nat.eq_dec u t) as [Y|Hu]; [rewrite Y, Nat.eqb_refl in L; discriminate L|].
+      destruct (Nat.eqb_spec u t) as [Y|_]; [contradiction|]. rewrite (Ho u Hu) in *. apply (f_ok _ _ _ R u c0 W L Hq).
+    + intros u W. cbn zeta. apply Wk in W. rewrite Tp, Epp, Mc. cbn [dps]. rewrite A2. pose proof (f_ps _ _ _ R u W) as L. cbn zeta in L.
+      destruct (Nat.eq_dec u t) as [->|Hu].
+      * assert (Rt2 : rtransit (thr st2 t) = []) by (unfold rtransit; rewrite Hc2, Hcu2; reflexivity). rewrite Rt2. cbn [app].
+        destruct A4 as [[x [q0 [Ec [Ev [Eo Er]]]]]|[Er Nr]]; rewrite Er.
+        -- destruct (Rv x q0 Ec Ev Eo) as [_ [Etr [_ Eq]]]. rewrite L, on_pipe_last, Eq, Z.eqb_refl. unfold rtransit. rewrite Hc, Hcu, Ec, Etr. cbn [rvals flat_map app].
+           rewrite <- !app_assoc. reflexivity.
+        -- rewrite L. unfold rtransit. rewrite Hc, Hcu. cbn [rvals flat_map app].
+           assert (Z0 : match c with CRecv => match tret (thr st t) with RVal z => [z] | _ => [] end | _ => @nil Z end = []).
+           { destruct c; try reflexivity. destruct (tret (thr st t)) as [| | |bb|z|] eqn:Etr; try reflexivity. exfalso. apply Nr.
+             destruct (Vw W Logic.I) as [_ Y]. exists z, (tpipe (thr st t)). split; [reflexivity|]. split; [rewrite Y; reflexivity|].
+             rewrite Own. destruct W as [_ W2]. destruct (Z.leb_spec 0 (tpipe (thr st t))); [reflexivity|lia]. }
+           rewrite Z0. reflexivity.
+      * rewrite (Ho u Hu). destruct A4 as [[x [q0 [Ec [Ev [Eo Er]]]]]|[Er _]]; rewrite Er; [|exact L].
+        destruct (Rv x q0 Ec Ev Eo) as [_ [_ [Wt Eq]]]. rewrite on_pipe_last. destruct (Z.eqb_spec q0 (tpipe (thr st u))) as [Y|Y]; [|rewrite app_nil_r; exact L].
+        exfalso. apply Hu. apply (e_wuniq _ _ _ E u t W Wt). rewrite Eq. auto.
+    + intros u m0 q x Hin. destruct (Nat.eq_dec u t) as [->|Hu]; [rewrite Hc2 in Hin; destruct Hin|]. rewrite (Ho u Hu) in *. apply (f_own_send _ _ _ R u m0 q x Hin).
+    + intros u q x Hq. destruct (Nat.eq_dec u t) as [->|Hu]; [rewrite Hcu2 in Hq; discriminate Hq|]. rewrite (Ho u Hu) in *. apply (f_sendret _ _ _ R u q x Hq).
+    + intros u q Hq _. rewrite Epp. destruct (Nat.eq_dec u t) as [->|Hu]; [rewrite Hcu2 in Hq; discriminate Hq|]. rewrite (Ho u Hu) in *.
+      apply (f_dropcmd _ _ _ R u q Hq). intro Y. destruct (f_pdrop _ _ _ R u q Y) as [Z1 Z2].
+      destruct Pd as [Y0|[[q0 [x0 [_ [Y0 _]]]]|[q0 [_ [Y0 _]]]]]; rewrite Y0 in Y; try discriminate Y. inversion Y. exact (Hu (eq_sym H0)).
+    + intros u m0 q Hin. rewrite Epp. destruct (Nat.eq_dec u t) as [->|Hu]; [rewrite Hc2 in Hin; destruct Hin|]. rewrite (Ho u Hu) in *. apply (f_own_cs _ _ _ R u m0 q Hin).
+    + intros u L. unfold is_late in L. rewrite A1, Lrm in L. destruct (Nat.eq_dec u t) as [Y|Hu]; [rewrite Y, Nat.eqb_refl in L; discriminate L|].
+      destruct (Nat.eqb_spec u t) as [Y|_]; [contradiction|]. rewrite (Ho u Hu). apply (f_late_cur _ _ _ R u L).
+    + intros u Hin. rewrite A1 in Hin. destruct (Nat.eq_dec u t) as [->|Hu].
+      * exfalso. pose proof (Lrm t) as Y. rewrite Nat.eqb_refl in Y. apply get_tid_none in Y. exact (Y Hin).
+      * rewrite (Ho u Hu). destruct (f_late_in _ _ _ R u (rm_tid_incl _ t _ _ Hin)) as [Z1 Z2]. split; [exact Z1|apply Wk; exact Z2].
+    + rewrite A1. apply rm_tid_nd. apply (f_late_nd _ _ _ R).
+    + intros u m0 v0 Hin. destruct (Nat.eq_dec u t) as [->|Hu]; [rewrite Hc2 in Hin; destruct Hin|]. rewrite (Ho u Hu) in *.
+      destruct (f_own_ret _ _ _ R u m0 v0 Hin) as [A B]. split; [exact A|]. intros z Ez. destruct (B z Ez) as [B1 B2]. split; [exact B1|apply Wk; exact B2].
+    + intros u j Hin. destruct (Nat.eq_dec u t) as [->|Hu]; [rewrite Hc2 in Hin; destruct Hin|]. rewrite (Ho u Hu) in *.
+      destruct (f_own_pr _ _ _ R u j Hin) as [A [B C]].
+      split; [intros m0 q Y; destruct (A m0 q Y) as [A1' A2']; split; [apply Wk; exact A1'|exact A2']|split;
+        [intros m0 q Y; destruct (B m0 q Y) as [B1 B2]; split; [apply Wk; exact B1|exact B2]|intros m0 q x Y; destruct (C m0 q x Y) as [C1 C2]; split; [apply Wk; exact C1|exact C2]]].
+    + intros u c0 Hq Wc. destruct (Nat.eq_dec u t) as [->|Hu]; [rewrite Hcu2 in Hq; discriminate Hq|]. rewrite (Ho u Hu) in *. apply (f_pr _ _ _ R u c0 Hq Wc).
+  - (* the flag *)
+    unfold m14_step. cbn. rewrite Hg.
+    assert (Lf : forall W : wkr st t, wcmd c -> is_late m t -> okret c v).
+    { intros W Wc L. destruct (Vw W Wc) as [_ ->]. apply (f_ok _ _ _ R t c W L Hcu). }
+    destruct c; try (destruct v; try reflexivity; destruct (get_tid t (m14_owner m)); reflexivity).
+    + (* CRecv *)
+      destruct v as [| | |bb|z|]; try reflexivity. destruct (get_tid t (m14_owner m)) as [q|] eqn:Eo; [|reflexivity]. cbn.
+      destruct (Rv z q eq_refl eq_refl eq_refl) as [Ep [Etr [W Eq]]]. subst p.
+      assert (Nl : ~ is_late m t) by (intro L; exact (Lf W Logic.I L)).
+      rewrite (late_flag m t Nl), orb_false_r.
+      pose proof (f_ps _ _ _ R t W) as L. cbn zeta in L. cbn [dps] in L. rewrite Eq in L.
+      rewrite on_pipe_last, Z.eqb_refl, L. unfold rtransit. rewrite Hc, Hcu, Etr. cbn [rvals flat_map app].
+      replace (on_pipe q (m14_recvd m) ++ z :: psendq (pps st q) ++ spend q (mcont st)) with ((on_pipe q (m14_recvd m) ++ [z]) ++ psendq (pps st q) ++ spend q (mcont st)) by (rewrite <- app_assoc; reflexivity).
+      rewrite prefixZ_app. cbn. apply orb_false_r.
+    + (* CLSend *)
+      destruct v; try reflexivity. destruct (get_tid t (m14_owner m)) as [q|] eqn:Eo; [|reflexivity]. cbn.
+      destruct (Ow q eq_refl) as [W _].
+      destruct (match get_tid t (m14_late m) with Some b0 => b0 | None => false end) eqn:El; [|rewrite orb_false_r; reflexivity].
+      apply late_bool in El. pose proof (Lf W Logic.I El) as Ok. destruct b; [destruct Ok|rewrite orb_false_r; reflexivity].
+    + (* CCancel *)
+      destruct v; try reflexivity. cbn.
+      destruct (match get_tid t (m14_late m) with Some b0 => b0 | None => false end) eqn:El; [|rewrite orb_false_r; reflexivity].
+      apply late_bool in El. pose proof (Late_w (or_introl El)) as W. pose proof (Lf W Logic.I El) as Ok. destruct b; [rewrite orb_false_r; reflexivity|destruct Ok].
+Qed.
